@@ -5,6 +5,8 @@ package main
 //
 // Input line:  (run (opt k v)… (main x<hex>) (mod x<name> x<hex>)…)
 //   options: (backends vm tree) (limits calls stack mem) (ast true) (entry x<fn>) (timeout ms)
+//            (singletons (x<name> V)…)   values the host provides for singletons (V as in values.go);
+//                                        every other singleton is "not found" (zero value of its type)
 // Output line: fields separated by " | ":
 //   A=ACCEPT | A=REJECT syn=<n> diag=<n> first=<hex>
 //   VM=<outcome>    TREE=<outcome>    AST=<sexp>
@@ -51,9 +53,18 @@ func (h memHost) GetKnownObjectTypeFieldAnnotations() []string { return nil }
 
 type vmExec struct {
 	hms.TestingVmExecutor
-	mu   *sync.Mutex
-	out  *strings.Builder
-	trig *strings.Builder
+	mu    *sync.Mutex
+	out   *strings.Builder
+	trig  *strings.Builder
+	sings map[string]*Sx
+}
+
+// LoadSingleton: the host-provided value (built afresh on every request) for the listed names.
+func (e vmExec) LoadSingleton(singletonIdent, moduleName string) (value.Value, bool, error) {
+	if sx, ok := e.sings[singletonIdent]; ok {
+		return *rvBuild(sx), true, nil
+	}
+	return nil, false, nil
 }
 
 func (e vmExec) WriteStringTo(s string) error {
@@ -80,7 +91,15 @@ func (e vmExec) RegisterTrigger(cb string, trigger string, span errors.Span, arg
 
 type treeExec struct {
 	hms.TestingTreeExecutor
-	out *strings.Builder
+	out   *strings.Builder
+	sings map[string]*Sx
+}
+
+func (e treeExec) LoadSingleton(ident string, typ aast.Type) (*ivalue.Value, bool, *ivalue.Interrupt) {
+	if sx, ok := e.sings[ident]; ok {
+		return ivBuild(sx), true, nil
+	}
+	return nil, false, nil
 }
 
 func (e treeExec) WriteStringTo(s string) error { e.out.WriteString(s); return nil }
@@ -95,6 +114,7 @@ type runOpts struct {
 	asm      bool
 	entry    string
 	timeout  time.Duration
+	sings    map[string]*Sx
 }
 
 func firstLine(s string) string { return strings.SplitN(s, "\n", 2)[0] }
@@ -142,7 +162,7 @@ func runVM(analyzed map[string]aast.AnalyzedProgram, o runOpts) (res string) {
 	}
 	ctx, cancel := context.WithTimeout(context.Background(), o.timeout)
 	defer cancel()
-	ex := vmExec{mu: mu, out: &out, trig: &trig}
+	ex := vmExec{mu: mu, out: &out, trig: &trig, sings: o.sings}
 	vm := runtime.NewVM(prog, ex, &ctx, &cancel, hms.TestingVmScopeAdditions(), o.limits)
 	inv := runtime.MainFn()
 	if o.entry != "" {
@@ -177,7 +197,7 @@ func runTree(analyzed map[string]aast.AnalyzedProgram, o runOpts) (res string) {
 	}()
 	ctx, cancel := context.WithTimeout(context.Background(), o.timeout)
 	defer cancel()
-	ex := treeExec{out: &out}
+	ex := treeExec{out: &out, sings: o.sings}
 	i := hms.Run(o.treeCall, analyzed, "main", ex, hms.TestingInterpreterScopeAdditions(), &ctx)
 	if i != nil {
 		switch it := (*i).(type) {
@@ -227,6 +247,11 @@ func parseRun(line string) (map[string]string, runOpts, error) {
 			o.entry = it.Arg(0).Str()
 		case "timeout":
 			o.timeout = time.Duration(it.Arg(0).Int()) * time.Millisecond
+		case "singletons":
+			o.sings = map[string]*Sx{}
+			for _, kv := range it.List[1:] {
+				o.sings[kv.List[0].Str()] = kv.List[1]
+			}
 		}
 	}
 	return mods, o, nil
